@@ -640,7 +640,8 @@ func (fb *functionBuilder) emitPrint(arg int8) {
 // emitRange appends a new "Range" instruction to the function body.
 //
 //	for i, e := range s
-func (fb *functionBuilder) emitRange(k bool, s, i, e int8, kind reflect.Kind) {
+func (fb *functionBuilder) emitRange(k bool, s, i, e int8, kind reflect.Kind, pos *ast.Position) {
+	fb.addPosAndPath(pos)
 	fn := fb.fn
 	var op runtime.Operation
 	switch kind {
